@@ -396,6 +396,11 @@ class Gen:
             }[n]
             if t.get("lt"):
                 choices = [[], {"x": 1}]
+                if t["lt"] == "decimal":
+                    # a decimal the annotation cannot represent: one digit too many / one fractional digit too many
+                    choices = [decimal.Decimal((0, (9,) * (t["prec"] + 1), -t["scale"])), decimal.Decimal((1, (1,), -t["scale"] - 1)), "1.5"]
+                elif t["lt"] == "date":
+                    choices += ["not-a-date", 2 ** 31]
             self.fault_done = "wrong-type:" + n
             return r.choice(choices)
         if k == "enum":
@@ -404,7 +409,7 @@ class Gen:
         if k == "fixed":
             self.fault_done = "fixed-size"
             if t.get("lt"):
-                return r.choice([[], "x"])
+                return r.choice([[], "x", decimal.Decimal((0, (9,) * (t["prec"] + 1), -t["scale"]))])
             return r.choice([b"x" * (t["size"] + 1), b"x" * max(0, t["size"] - 1) if t["size"] else b"xy", bytearray(b"x" * t["size"]), "x" * t["size"], None])
         if k == "array":
             self.fault_done = "not-a-sequence"
